@@ -522,7 +522,13 @@ struct BigInt {
 
             case BigIntOperation::And: {
                 storage_[0U] &= number;
-                index_ = 0U;
+
+                // The operand has no higher words: they become zero.
+                while (index_ != 0U) {
+                    storage_[index_] = 0;
+                    --index_;
+                }
+
                 break;
             }
 
@@ -536,6 +542,31 @@ struct BigInt {
     template <BigIntOperation Operation, typename N_Number_T>
     inline void doOperation(N_Number_T number) noexcept {
         constexpr bool is_bigger_size = (((sizeof(N_Number_T) * 8U) / TypeWidth()) > 1U);
+
+        if QENTEM_CONST_EXPRESSION (Operation == BigIntOperation::And) {
+            // Word by word; the words the operand does not reach become zero.
+            const SizeT32 top   = index_;
+            SizeT32       index = 0U;
+            index_              = 0U;
+
+            do {
+                storage_[index] &= Number_T(number);
+
+                if (storage_[index] != 0) {
+                    index_ = index;
+                }
+
+                if QENTEM_CONST_EXPRESSION (is_bigger_size) {
+                    number >>= TypeWidth();
+                } else {
+                    number = 0;
+                }
+
+                ++index;
+            } while (index <= top);
+
+            return;
+        }
 
         switch (Operation) {
             case BigIntOperation::Add: {
